@@ -132,7 +132,101 @@ def _run_once(chk):
                               {"case": x, "case_b": y, "a": a, "b": b}, finding_key=key)
 
 
+FALLBACK_WORDS = ["F", "missing", "zero", "gap", "just", "spam", "mjz", "sVg", "-", "-p", "pg s", "é", "hello", "h", "Vh"]
+
+
+def cli_mirror(chk):
+    """the REAL binary on pairs of command lines that differ only in the spelling of indexes.  A bounds list that starts with a negative index is a
+    command-line VALUE that starts with a dash: whatever the argument parser does with such text (flags looked up inside single-dash arguments,
+    a leading '-' taken for an option) must not depend on the spelling — so the fallback texts are WORDS (letters that are also flags), and the
+    value is given in every way pico_args accepts (`-f V`, `-f=V`, `--fields V`, `--fields=V`)"""
+    from common import build_tuc, run_cli
+    rng = chk.rng
+    tuc = build_tuc(release=False)
+    pairs = []
+    while len(pairs) < (1500 if chk.tier == "quick" else 15000):
+        n = rng.randint(1, 5)
+        bs, bs2 = [], []
+        ok = True
+        for _ in range(rng.randint(1, 3)):
+            while True:
+                l, r = rng.choice(sides(n + 1)), rng.choice(sides(n + 1))
+                single = rng.random() < 0.5
+                if single:
+                    if l is None:
+                        continue
+                    r = l
+                if wellformed_bound(l, r):
+                    break
+            fb = rng.choice(FALLBACK_WORDS) if rng.random() < 0.6 else None
+            l2 = mirror(l, n) if (l is not None and l < 0 and -l <= n and rng.random() < 0.8) else l
+            r2 = l2 if single else (mirror(r, n) if (r is not None and r < 0 and -r <= n and rng.random() < 0.8) else r)
+            ok = ok and wellformed_bound(l2, r2)
+            bs.append(bound_text(l, r, fb, single))
+            bs2.append(bound_text(l2, r2, fb, single))
+        if not ok or bs == bs2:
+            continue
+        mode = rng.choice(["f", "f", "c", "b", "l"])
+        if mode == "f":
+            inp = b",".join(rng.choice([b"x", b"y", b"", b"xy"]) for _ in range(n)) + b"\n"
+            if inp == b"\n":
+                continue
+            inp = inp * rng.randint(1, 2)
+            rest = ["-d", ","] + rng.choice([[], ["-j"], ["-s"], ["--json"]])
+        elif mode == "c":
+            inp = "".join(rng.choice(["a", "é", "€", "😎"]) for _ in range(n)).encode() + b"\n"
+            rest = []
+        elif mode == "b":
+            inp = bytes(rng.choice([10, 97, 98, 255]) for _ in range(n))
+            rest = []
+        else:
+            ls = [rng.choice([b"a", b"", b"bc"]) for _ in range(n)]
+            if n == 1 and ls[0] == b"":
+                continue
+            inp = b"\n".join(ls) + b"\n"
+            rest = rng.choice([[], ["--no-join"]])
+        how = rng.randrange(4)
+        long = {"f": "--fields", "c": "--characters", "b": "--bytes", "l": "--lines"}[mode]
+
+        def argv_of(v):
+            a = [["-" + mode, v], ["-" + mode + "=" + v], [long, v], [long + "=" + v]][how]
+            return (a + rest) if rng_first else (rest + a)
+        rng_first = rng.random() < 0.5
+        pairs.append((argv_of(",".join(bs)), argv_of(",".join(bs2)), inp, mode))
+    ra = run_cli(tuc, [(a, i) for a, _, i, _ in pairs])
+    rb = run_cli(tuc, [(b, i) for _, b, i, _ in pairs])
+    for (a, b, inp, mode), x, y in zip(pairs, ra, rb):
+        chk.evaluations += 1
+        chk.count("cli-mirror:" + mode)
+        chk.nontrivial_add(("cli-mirror", tuple(a), inp))
+        if x != y and not (mode == "l" and x[0] == "1" and y[0] == "1"):
+            # (the -l known finding: a straddling range with a fallback, line-at-a-time vs buffered)
+            chk.report_oracle("CLI: the output changes when -k is rewritten to n+1-k in the bounds given on the command line",
+                              {"argv_a": a, "argv_b": b, "stdin_hex": inp.hex(), "a": [x[0], x[1].hex()], "b": [y[0], y[1].hex()]},
+                              finding_key=_lines_finding(a, b, inp) if mode == "l" else None)
+
+
+def _lines_finding(a, b, inp):
+    """the listed -l finding (a closed range straddling the end of the input, with a fallback, served line at a time) seen from the command line"""
+    def bounds_of(argv):
+        for k, t in enumerate(argv):
+            if t in ("-l", "--lines"):
+                return argv[k + 1]
+            if t.startswith("-l=") or t.startswith("--lines="):
+                return t.split("=", 1)[1]
+        return ""
+    for v in (bounds_of(a), bounds_of(b)):
+        c = {"kind": "cut", "eng": "lines", "bt": "l", "b": v, "in": inp, "d": b"\n"}
+        try:
+            if lines_straddle_with_fallback(c):
+                return "lines-fwd-straddling-range-with-fallback"
+        except Exception:
+            pass
+    return None
+
+
 def run(chk):
+    cli_mirror(chk)
     # thorough = several independent rounds of the same generators (the PRNG keeps advancing), so that memory stays bounded
     for _round in range(1 if chk.tier == "quick" else 6):
         _run_once(chk)
